@@ -348,7 +348,7 @@ def run(chk):
                 "if R is a hit then exit status, ninja invocation and every requested build's statements equal the cold run's; no hit right after a "
                 "change; an identical re-run hits; per event, hit/miss, cache presence and ninja completeness are compared with the protocol model; "
                 "non-trivial = the final run is a hit after >=1 earlier event besides the first run; distinct by scenario hash")
-    scs = [gen_history(chk.seed, i, maxlen) for i in range(n)]
+    scs = [c["scenario"] for c in common.load_corpus("C08") if "scenario" in c] + [gen_history(chk.seed, i, maxlen) for i in range(n)]
     for sc, res in common.parallel_map(worker, scs):
         judge(chk, sc, res)
     chk.assumptions = ["stamps are (len, mtime): every edit of the harness changes mtime", "kill = _exit at a hook point (unflushed buffers lost); power loss / fsync ordering not modelled",
